@@ -979,6 +979,11 @@ class _Simu(_IObserver, _params.Updatable, ABC):
         # switching to another mesh in the history changes the connectivity
         clear_cached_computed_values(self)
 
+        # the solutions of the mesh that was active have another size: start from zero vectors of the
+        # right size, so that a field an iteration does not store (e.g. v, a of a static or parabolic
+        # analysis) is not left with the size of the other mesh
+        self.__Init_Sols_n()
+
         self.Need_Update()  # need to reconstruct matrices
 
     def _Update(self, observable: Observable, event: str) -> None:
